@@ -186,20 +186,28 @@ Theorem read_metadata_split fields l m b :
 Proof.
   unfold read_metadata. destruct l as [|x r].
   - intros H. injection H as <- <-. now exists [].
-  - unfold read_metadata_pre. destruct r as [|y r].
-    + destruct (before_colon x) as [p|] eqn:Ep; [destruct (str_in (lower (strip p)) fields) eqn:Ef|];
-        try apply meta_split.
-      (* the protecting empty line: consumed alone, the comment is the body *)
-      unfold meta_preprocessor. simpl. intros H. injection H as <- <-. now exists [].
-    + apply meta_split.
+  - unfold read_metadata_pre.
+    destruct (forallb is_blank r); [|apply meta_split].
+    destruct (before_colon x) as [p|] eqn:Ep; [destruct (str_in (lower (strip p)) fields) eqn:Ef|];
+      try apply meta_split.
+    (* the protecting empty line: consumed alone, the comment is the body *)
+    unfold meta_preprocessor. simpl. intros H. injection H as <- <-. now exists [].
 Qed.
 
-(* the one-line special case: a one-line comment with ':' whose first part is not a field name
-   is shown entirely *)
-Theorem read_metadata_oneline fields x p :
+(* the one-line special case: a comment of one line (followed by any number of blank lines) with
+   ':' whose first part is not a field name is shown entirely *)
+Theorem read_metadata_oneline fields x rest p :
   before_colon x = Some p -> str_in (lower (strip p)) fields = false ->
-  read_metadata fields [x] = ([], [x]).
-Proof. intros Hp Hf. unfold read_metadata, read_metadata_pre. now rewrite Hp, Hf. Qed.
+  forallb is_blank rest = true ->
+  read_metadata fields (x :: rest) = ([], x :: rest).
+Proof. intros Hp Hf Hb. unfold read_metadata, read_metadata_pre. now rewrite Hb, Hp, Hf. Qed.
+
+(* the former witness of doc-oneline-colon-alt-block: the doc lines of `!* Note: alt one line`
+   closed by a blank line *)
+Example oneline_alt_block_fixed :
+  read_metadata [s "author"; s "display"] [s " Note: alt one line"; []]
+  = ([], [s " Note: alt one line"; []]).
+Proof. reflexivity. Qed.
 
 (* ---------- completeness: a documented header is consumed, with its values ---------- *)
 Inductive hline := HKey (n : nat) (k v : str) | HMore (n : nat) (v : str).
@@ -372,7 +380,8 @@ Proof.
 Qed.
 
 Example read_metadata_oneline_ex :
-  read_metadata [s "author"; s "display"] [s "Note: this is text"] = ([], [s "Note: this is text"])
+  read_metadata [s "author"; s "display"] [s "Note: this is text"; []; s "  "]
+  = ([], [s "Note: this is text"; []; s "  "])
   /\ read_metadata [s "author"; s "display"] [s "Author: me"] = ([(s "author", [s "me"])], []).
 Proof. split; reflexivity. Qed.
 
